@@ -75,7 +75,7 @@ def random_scenario(rng, cfg):
     for (ds, dh) in addrs:
         ent = {}
         for (ss, sh) in addrs:
-            if rng.random() < 0.3:
+            if rng.random() < 0.5:
                 ent[f"{ss},{sh}"] = [k for k in range(n_srv) if rng.random() < 0.6]
         hfw[f"{ds},{dh}"] = ent
     nsens = cfg.get("n_sens", 1)
@@ -195,6 +195,11 @@ def random_input(rng, harness, variant, cfg):
         return rep
     if variant in kinds:
         rep["action"] = random_action(rng, sc, variant)
+        if variant == "Exploit" and rng.random() < 0.5:
+            denies = [(k, srv) for k, ent in sc["host_firewall"].items() for srvs in ent.values() for srv in srvs]
+            if denies:
+                k, srv = rng.choice(denies)
+                rep["action"]["target"], rep["action"]["service"] = [int(x) for x in k.split(",")], srv
         p = rep["action"].get("prob", 1.0)
         rep["draws"] = [rng.choice([0.0, p, max(0.0, p - 0.1), min(0.999, p + 0.1), rng.random()])]
         if rep["draws"][0] >= 1.0:
@@ -204,6 +209,11 @@ def random_input(rng, harness, variant, cfg):
     if harness == "net_tp":
         rep["host_addr"] = list(rng.choice(sc["addrs"]))
         rep["service"] = rng.randrange(sc["n_srv"])
+        # half of the queries ask about a (destination, service) pair some host-firewall deny entry talks about
+        denies = [(k, srv) for k, ent in sc["host_firewall"].items() for srvs in ent.values() for srv in srvs]
+        if denies and rng.random() < 0.5:
+            k, srv = rng.choice(denies)
+            rep["host_addr"], rep["service"] = [int(x) for x in k.split(",")], srv
     return rep
 
 
@@ -408,7 +418,8 @@ def evaluate(repo, c, variant, cfg, harness, rep, actual):
 def run_fallback(repo, c, variant, cfg, tree, samples, seed=0):
     """returns dict(samples, valid, failures=[{label, input}])"""
     harness = SUPPORTED[c.qualname]
-    rng = random.Random(hash((c.qualname, variant, seed)) & 0xffffffff)
+    import zlib
+    rng = random.Random(zlib.crc32(f"{c.qualname}|{variant}|{seed}|{sorted(cfg.items())}".encode()))   # same inputs in every process
     reps = [random_input(rng, harness, variant, cfg) for _ in range(samples)]
     for rep in reps:
         rep["qualname"], rep["variant"] = c.qualname, variant
